@@ -99,9 +99,9 @@ pub fn corpus(seed: u64, n: u64) -> Vec<(String, Tree)> {
     games
 }
 
-/// the presets and four tuples outside them: forgetting positive regret (discount factor exactly zero),
+/// the presets and five tuples outside them: forgetting positive regret (discount factor exactly zero),
 /// forgetting negative regret with the arg-min fallback, negative exponents with a finite softmax
-pub const PARAM_SETS: [&str; 9] = ["vanilla", "lcfr", "cfr_plus", "dcfr", "dcfr_prune", "forget-pos", "forget-both", "argmin", "softmax"];
+pub const PARAM_SETS: [&str; 10] = ["vanilla", "lcfr", "cfr_plus", "dcfr", "dcfr_prune", "forget-pos", "forget-both", "argmin", "softmax", "steep"];
 
 pub fn param_set(name: &str) -> Value {
     match name {
@@ -109,6 +109,9 @@ pub fn param_set(name: &str) -> Value {
         "forget-both" => json!({"a": ["ninf"], "b": ["ninf"], "g": ["q", 0, 1], "w": ["pinf"]}),
         "argmin" => json!({"a": ["q", 1, 1], "b": ["ninf"], "g": ["q", 2, 1], "w": ["ninf"]}),
         "softmax" => json!({"a": ["q", -1, 1], "b": ["q", -1, 1], "g": ["q", 1, 2], "w": ["q", -1, 1]}),
+        // average-strategy exponent 1000: the accumulated weights are of the order 1e-97 after four iterations (the
+        // returned average is their quotient and must not depend on their size)
+        "steep" => json!({"a": ["q", 3, 2], "b": ["q", 0, 1], "g": ["q", 1000, 1], "w": ["pinf"]}),
         preset => cfr::preset(preset),
     }
 }
@@ -298,7 +301,7 @@ pub fn record(args: &Args) {
             if only.map_or(false, |o| o != *meth) {
                 continue;
             }
-            let preset = PARAM_SETS[(gi + mi) % 9];
+            let preset = PARAM_SETS[(gi + mi) % 10];
             for &iters in budgets {
                 let sd = seed.wrapping_mul(31).wrapping_add(gi as u64);
                 let base = match traced(&tg, meth, preset, 1, iters, sd, 0) {
